@@ -120,3 +120,21 @@ claim("C12", "Coq theorems on the reader's buffering and the inflate size checks
       "against both the property's bound and alloc_upper.",
       "Partial: the allocator, Vec/HashMap/BTreeMap growth and struct layout are modelled by alloc_upper and validated by measurement, not derived from the code; the byte-budget hypotheses of C12_bound_partial (16 B per frame, 24 B per layer, 6 B per entity) are accounting, not a theorem about the parser. A new declared-size reservation in the code is detected when an input makes the measurement exceed alloc_upper or the bound.",
       "DESIGN.md section 5, C12")
+claim("C01", "Coq decode-after-encode theorems for the header and every chunk kind (all attribute values, arbitrary junk and tails) + accessor laws + structure correspondence run",
+      "47 theorems: C01_header / C01_header_loaded (canvas, frame count, format, transparent index as encoded, for every value of the unused header fields), one "
+      "round-trip theorem per chunk kind (layer, tags, slice with keys/9-slice/pivot, palette, external files, tileset header, user data, cel header and the four cel "
+      "contents, colour profile, tilemap header; signed fields at their extremes; names any valid UTF-8; reserved fields arbitrary; any trailing bytes), the dispatcher "
+      "lemmas C01_process_*, and the accessor laws C01_layer_by_name_lowest / C01_tag_by_name_lowest / C01_get_tag_range / C01_iteration / C01_layers_in_order, for all "
+      "values with no size bound. The end-to-end statement (serialize a whole sprite, load, observe) is NOT proved as one theorem: the chunk-level theorems compose with "
+      "the factorisation (Proofs/Factor.v) and the assembly lemmas, and the whole-file tie is the correspondence run, which compares the implementation's complete STRUCT "
+      "observation with the expectation computed from the generator's sprite and with the model on value-swept structured sprites and the corpus.",
+      "Partial: no single end-to-end round-trip theorem over a whole-sprite serializer (stated in DESIGN.md). Modelled, not verified: decoders of Model/Chunks.v against the chunk parsers in src/.",
+      "DESIGN.md section 5, C01")
+claim("C11", "Coq theorems for the three palette decoders (functional specs, finite 6-bit sweep), precedence and completeness + palette-program correspondence run",
+      "20 theorems: C11_new (one entry per index of the stored range with the stored RGBA and optional name, nothing outside), C11_old / C11_old_last_wins / C11_old_single / "
+      "C11_old_offsets (legacy chunks: ids at the cumulative skip offsets, alpha 255, count byte 0 = 256, later packets overwrite), C11_scale (0..63 -> c*4 + c/16, 0 -> 0, "
+      "63 -> 255, strictly monotone, >= 64 refused; 64-value sweep), C11_precedence_* (new wins in either order), C11_complete_* (indexed pixels without a palette or with "
+      "an index absent from it make validation and the load fail); the check re-proves them and runs palette programs (every 6-bit value, packet structures, ranges, both "
+      "orders, missing indices in raw cels / zlib cels / tilesets) against a Python expectation and the model, in release and dev builds.",
+      "Modelled, not verified: dec_palette / dec_old_palette / validate_pixels against src/palette.rs, src/pixel.rs.",
+      "DESIGN.md section 5, C11")
